@@ -31,7 +31,8 @@ MethodFileOf(f) == IF MethodPathBug THEN FileBase(f) ELSE f
 AllSvcs == {"K", "L", "M", "Z", "Y"}
 
 \* TI = typedef i32, TL = typedef list<i32>, defined alike in every file: a type change is a change of the type NAME
-Types == {"i32", "string", "list<i32>", "R", "map<string, i32>", "TI", "TL"}
+\* (string and binary share a wire type and are different types all the same)
+Types == {"i32", "string", "binary", "list<i32>", "R", "map<string, i32>", "TI", "TL"}
 VARIABLES new, nedits
 vars == <<new, nedits>>
 Init == new = BaseProg /\ nedits = 0
